@@ -72,7 +72,65 @@ def load_summary(paths):
     return res
 
 
+def write_readme(sd, head, rows, brows, ev):
+    lines = ["# Seeded changes and benign refactorings", "",
+             "`<Cxx>-r<round>m<n>/`: a change (`patch.diff`) that compiles, passes the existing 42 unit + 11 doc tests and breaks the named property under the",
+             "stated conditions, with the demonstration that exposes it, the author's notes (`README.md`) and `meta.json` (what it needs to manifest, what I",
+             "ran to confirm it, which checks fire). `benign-*/`: behaviour-preserving refactorings; every check must stay silent on them.",
+             "None of this is committed to /repo. The table is the outcome of applying each patch to a scratch worktree of /repo HEAD (%s) and running" % head,
+             "`./check all` (`tools/run_corpus.sh`).", "",
+             "| id | property | change | own check fires | checks that fire | valid on HEAD |", "|---|---|---|---|---|---|"]
+    for m in rows:
+        fired = m["checks_that_fire"]
+        own = "—" if fired is None else ("yes" if m["property"] in fired else "**no**")
+        lines.append("| %s | %s | %s | %s | %s | %s |" % (m["id"], m["property"], m["title"].replace("|", "/")[:100], own,
+                                                     "not run" if fired is None else (", ".join(fired) or "**none**"), "yes" if m["valid"] else "no"))
+    rev = sorted(k for k in ev if k.startswith("revert_"))
+    if rev:
+        lines += ["", "Reverse patches of the `fix:` commits (`selftest/mutants/`):", "", "| patch | checks that fire |", "|---|---|"]
+        for k in rev:
+            lines.append("| %s | %s |" % (k, ", ".join(ev[k]["fired"])))
+    lines += ["", "Benign refactorings:", "", "| id | files | checks that fire (should be none) |", "|---|---|---|"]
+    for m in brows:
+        fired = m["checks_that_fire"]
+        note = "" if m.get("evaluated_on") in (None, head) else " (patch predates the last fix: commit and no longer applies; evaluated on %s)" % m["evaluated_on"]
+        lines.append("| %s | %s | %s |" % (m["id"], ", ".join(m["files"]), "not run" if fired is None else ((", ".join(fired) or "none") + note)))
+    open(os.path.join(sd, "README.md"), "w").write("\n".join(lines) + "\n")
+
+
+def refresh(summ):
+    """tools/collect_seeded.py --refresh <summary>[,<summary>..]: keep the archived corpus, update which checks fire (from a run of
+    tools/run_corpus.sh) in every meta.json and rewrite README.md"""
+    ev = load_summary(summ)
+    head = os.popen("git -C /repo rev-parse --short HEAD").read().strip()
+    sd = os.path.join(VERIF, "seeded")
+    rows, brows = [], []
+    for mp in sorted(glob.glob(os.path.join(sd, "*", "meta.json"))):
+        m = json.load(open(mp))
+        if m.get("kind") == "benign":
+            grp, n = m["id"][len("benign-"):].rsplit("-", 1)
+            row = ev.get("b-%s-%s" % (grp, n))
+            if row is not None:
+                m["checks_that_fire"] = row["fired"]
+                m["evaluated_on"] = row.get("base") or head
+            brows.append(m)
+        else:
+            pid, rest = m["id"].split("-r", 1)
+            rnd, mn = rest.split("m", 1)
+            row = ev.get("m%s-%s-m%s" % (rnd, pid, mn))
+            if row is not None:
+                m["checks_that_fire"] = row["fired"]
+            rows.append(m)
+        json.dump(m, open(mp, "w"), indent=1)
+    write_readme(sd, head, rows, brows, ev)
+    nv = [m for m in rows if m["valid"]]
+    print("seeded: %d (valid %d), detected by own check: %d" % (len(rows), len(nv), sum(1 for m in nv if m["checks_that_fire"] and m["property"] in m["checks_that_fire"])))
+    print("benign: %d, silent: %d" % (len(brows), sum(1 for m in brows if m["checks_that_fire"] == [])))
+
+
 def main():
+    if sys.argv[1] == "--refresh":
+        return refresh(sys.argv[2])
     summ, benign = sys.argv[1:3]
     rest = sys.argv[3:]
     rounds = [(i // 2 + 1, rest[i], rest[i + 1]) for i in range(0, len(rest) - 1, 2)]
